@@ -28,21 +28,113 @@ def _strip_doc(body: list) -> list:
     return body[1:] if body and isinstance(body[0], ast.Expr) and isinstance(body[0].value, ast.Constant) and isinstance(body[0].value.value, str) else list(body)
 
 
+def _is_dataclass_deco(d: ast.expr) -> bool:
+    t = d.func if isinstance(d, ast.Call) else d
+    return (isinstance(t, ast.Name) and t.id == "dataclass") or (isinstance(t, ast.Attribute) and t.attr == "dataclass")
+
+
+def class_shape_ok(cls: ast.ClassDef) -> bool:
+    return not cls.bases and not cls.keywords and all(_is_dataclass_deco(d) for d in cls.decorator_list)
+
+
+def _dataclass_init(cls: ast.ClassDef, post):
+    """The __init__ a dataclass generates, as far as plain fields / field(default=, default_factory=, init=) go,
+    followed by the statements of __post_init__."""
+    args: list = [ast.arg(arg="self")]
+    defaults: list = []
+    body: list = []
+    for st in cls.body:
+        if not (isinstance(st, ast.AnnAssign) and isinstance(st.target, ast.Name)):
+            continue
+        if "ClassVar" in ast.unparse(st.annotation):
+            continue
+        nm, v = st.target.id, st.value
+        init, dflt, fac = True, None, None
+        if isinstance(v, ast.Call) and ((isinstance(v.func, ast.Name) and v.func.id == "field") or (isinstance(v.func, ast.Attribute) and v.func.attr == "field")):
+            for kw in v.keywords:
+                if kw.arg == "init":
+                    if not isinstance(kw.value, ast.Constant):
+                        return None
+                    init = bool(kw.value.value)
+                elif kw.arg == "default":
+                    dflt = kw.value
+                elif kw.arg == "default_factory":
+                    fac = kw.value
+        elif v is not None:
+            dflt = v
+        if fac is not None:
+            val: ast.expr = fac.body if isinstance(fac, ast.Lambda) and not fac.args.args else ast.Call(func=fac, args=[], keywords=[])
+        else:
+            val = dflt
+        if init:
+            if val is not None and not isinstance(val, ast.Constant) and fac is None:
+                return None  # a non-constant default of an init parameter: evaluated once at class creation
+            args.append(ast.arg(arg=nm))
+            if val is not None:
+                defaults.append(val)
+            elif defaults:
+                return None
+            rhs: ast.expr = ast.Name(id=nm, ctx=ast.Load())
+        else:
+            if val is None:
+                continue  # set by __post_init__
+            rhs = val
+        a = ast.Assign(targets=[ast.Attribute(value=ast.Name(id="self", ctx=ast.Load()), attr=nm, ctx=ast.Store())], value=rhs)
+        body.append(ast.copy_location(a, st))
+    if post is not None:
+        if len(post.args.args) != 1:
+            return None
+        sn = post.args.args[0].arg
+
+        class _R(ast.NodeTransformer):
+            def visit_Name(self, node):
+                return ast.copy_location(ast.Name(id="self", ctx=node.ctx), node) if node.id == sn else node
+
+        body += [_R().visit(copy.deepcopy(b)) for b in _strip_doc(post.body)]
+    fd = ast.FunctionDef(name="__init__", args=ast.arguments(posonlyargs=[], args=args, vararg=None, kwonlyargs=[], kw_defaults=[], kwarg=None, defaults=defaults), body=body or [ast.Pass()], decorator_list=[], returns=None, type_comment=None, type_params=[])
+    ast.copy_location(fd, cls)
+    ast.fix_missing_locations(fd)
+    return fd
+
+
 class _Members:
     def __init__(self, cls: ast.ClassDef) -> None:
         self.cls = cls
         self.methods: dict[str, ast.FunctionDef | ast.AsyncFunctionDef] = {}
         self.fields: set[str] = set()
+        self.alias: dict[str, str] = {}  # property that only reads (and writes) one field -> that field
+        self.getter: dict[str, ast.expr] = {}  # read-only property -> the expression it returns
+        self.static: set[str] = set()
         self.ok = True
+        is_dc = any(_is_dataclass_deco(d) for d in cls.decorator_list)
+        props: dict = {}
+        post = None
         for st in _strip_doc(cls.body):
             if isinstance(st, (ast.FunctionDef, ast.AsyncFunctionDef)):
-                if st.decorator_list or (st.name.startswith("__") and st.name != "__init__"):
+                decos = [ast.unparse(d) for d in st.decorator_list]
+                if decos == ["property"] and isinstance(st, ast.FunctionDef):
+                    props.setdefault(st.name, [None, None])[0] = st
+                    continue
+                if len(decos) == 1 and decos[0].endswith(".setter") and isinstance(st, ast.FunctionDef):
+                    props.setdefault(st.name, [None, None])[1] = st
+                    continue
+                if decos == ["staticmethod"]:
+                    self.static.add(st.name)
+                elif decos:
                     self.ok = False
-                if st.args.vararg or st.args.kwarg or not st.args.args:
+                if st.name == "__post_init__" and is_dc:
+                    post = st
+                    continue
+                if st.name.startswith("__") and st.name != "__init__":
+                    self.ok = False
+                if st.args.vararg or st.args.kwarg or (not st.args.args and st.name not in self.static):
                     self.ok = False
                 self.methods[st.name] = st
-            elif isinstance(st, ast.AnnAssign) and isinstance(st.target, ast.Name) and st.value is None:
-                self.fields.add(st.target.id)
+            elif isinstance(st, ast.AnnAssign) and isinstance(st.target, ast.Name) and (st.value is None or is_dc):
+                if "ClassVar" not in ast.unparse(st.annotation):
+                    self.fields.add(st.target.id)
+                else:
+                    self.ok = False  # class-level constants: keep it simple
             elif isinstance(st, ast.Assign) and len(st.targets) == 1 and isinstance(st.targets[0], ast.Name) and st.targets[0].id == "__slots__":
                 try:
                     v = ast.literal_eval(st.value)
@@ -54,7 +146,44 @@ class _Members:
                 pass
             else:
                 self.ok = False
+        if is_dc and "__init__" not in self.methods:
+            init = _dataclass_init(cls, post)
+            if init is None:
+                self.ok = False
+            else:
+                self.methods["__init__"] = init
+        elif post is not None:
+            self.ok = False
+        for pn, (g, s_) in props.items():
+            gb = _strip_doc(g.body) if g is not None else []
+            if g is None or len(gb) != 1 or not isinstance(gb[0], ast.Return) or gb[0].value is None or len(g.args.args) != 1:
+                self.ok = False
+                continue
+            gs = g.args.args[0].arg
+            ge = gb[0].value
+            if isinstance(ge, ast.Attribute) and isinstance(ge.value, ast.Name) and ge.value.id == gs:
+                ok_set = s_ is None
+                if s_ is not None:
+                    sb_ = _strip_doc(s_.body)
+                    ok_set = len(s_.args.args) == 2 and len(sb_) == 1 and isinstance(sb_[0], ast.Assign) and len(sb_[0].targets) == 1 and isinstance(sb_[0].targets[0], ast.Attribute) and isinstance(sb_[0].targets[0].value, ast.Name) and sb_[0].targets[0].value.id == s_.args.args[0].arg and sb_[0].targets[0].attr == ge.attr and isinstance(sb_[0].value, ast.Name) and sb_[0].value.id == s_.args.args[1].arg
+                if ok_set:
+                    self.alias[pn] = ge.attr
+                    self.fields.add(ge.attr)
+                    continue
+                self.ok = False
+                continue
+            if s_ is not None:
+                self.ok = False
+                continue
+            # a computed read-only view: usable inside the class (and only read)
+            class _S(ast.NodeTransformer):
+                def visit_Name(self, node):
+                    return ast.copy_location(ast.Name(id="self", ctx=node.ctx), node) if node.id == gs else node
+
+            self.getter[pn] = _S().visit(copy.deepcopy(ge))
         for m in self.methods.values():
+            if m.name in self.static:
+                continue
             sn = m.args.args[0].arg
             fine = set()
             for n in ast.walk(m):
@@ -84,9 +213,13 @@ class _SelfRewrite(ast.NodeTransformer):
 
     def visit_Attribute(self, node: ast.Attribute):
         if isinstance(node.value, ast.Name) and node.value.id == self.selfn:
-            if node.attr in self.owner_fields and isinstance(node.ctx, ast.Load):
-                return ast.copy_location(copy.deepcopy(self.owner_fields[node.attr]), node)
-            new = f"{self.attr}__{node.attr}" if node.attr in self.mem.methods else f"{self.attr}_{node.attr}"
+            attr_ = self.mem.alias.get(node.attr, node.attr)
+            if node.attr in self.mem.getter and isinstance(node.ctx, ast.Load):
+                sub_ = _SelfRewrite("self", self.owner_self, self.attr, self.mem, {}, self.owner_fields)
+                return ast.copy_location(sub_.visit(copy.deepcopy(self.mem.getter[node.attr])), node)
+            if attr_ in self.owner_fields and isinstance(node.ctx, ast.Load):
+                return ast.copy_location(copy.deepcopy(self.owner_fields[attr_]), node)
+            new = f"{self.attr}__{attr_}" if attr_ in self.mem.methods else f"{self.attr}_{attr_}"
             out = ast.Attribute(value=ast.copy_location(ast.Name(id=self.owner_self, ctx=ast.Load()), node.value), attr=new, ctx=node.ctx)
             return ast.copy_location(out, node)
         return self.generic_visit(node)
@@ -136,7 +269,7 @@ def flatten_collaborators(tree: ast.Module) -> int:
         progress = False
         classes = {n.name: n for n in tree.body if isinstance(n, ast.ClassDef)}
         for cname, cls in classes.items():
-            if not _is_private(cname) or cls.bases or cls.keywords or cls.decorator_list:
+            if not _is_private(cname) or not class_shape_ok(cls):
                 continue
             mem = _Members(cls)
             if not mem.ok:
@@ -168,7 +301,7 @@ def flatten_collaborators(tree: ast.Module) -> int:
             if runtime_refs:
                 continue
             # every other use of <x>.<a> is <x>.<a>.<member>
-            members = mem.fields | set(mem.methods) - {"__init__"}
+            members = mem.fields | set(mem.alias) | set(mem.methods) - {"__init__"}
             uses = [n for n in ast.walk(tree) if isinstance(n, ast.Attribute) and n.attr == attr]
             outer = {id(n.value): n for n in ast.walk(tree) if isinstance(n, ast.Attribute) and isinstance(n.value, ast.Attribute) and n.value.attr == attr}
             okuse = True
@@ -207,10 +340,13 @@ def flatten_collaborators(tree: ast.Module) -> int:
             # constructor body in place of the instantiation
             pre: list = []
             names: dict = {}
+            complex_args = [p for p in order if not (isinstance(amap[p], (ast.Name, ast.Constant)) or (isinstance(amap[p], ast.Attribute) and isinstance(amap[p].value, ast.Name)))]
             for p in order:
                 a0 = amap[p]
                 if isinstance(a0, (ast.Name, ast.Constant)) or (isinstance(a0, ast.Attribute) and isinstance(a0.value, ast.Name)):
                     names[p] = a0
+                elif len(complex_args) == 1 and sum(1 for n in ast.walk(init) if isinstance(n, ast.Name) and n.id == p and isinstance(n.ctx, ast.Load)) == 1:
+                    names[p] = a0  # the only computed argument, used once: written where it is used
                 else:
                     ln = f"__co{k}_{p}"
                     pre.append(ast.copy_location(ast.Assign(targets=[ast.Name(id=ln, ctx=ast.Store())], value=a0), stmt))
@@ -236,6 +372,9 @@ def flatten_collaborators(tree: ast.Module) -> int:
                     continue
                 m2 = copy.deepcopy(m)
                 m2.name = f"{attr}__{mname}"
+                if mname in mem.static:
+                    ocls.body.append(m2)
+                    continue
                 sn = m2.args.args[0].arg
                 m2.args.args[0].arg = owner_self
                 m2.body = [_SelfRewrite(sn, owner_self, attr, mem, {}, owner_fields).visit(b) for b in m2.body]
@@ -266,8 +405,9 @@ class _Access(ast.NodeTransformer):
     def visit_Attribute(self, node: ast.Attribute):
         self.generic_visit(node)
         v = node.value
-        if isinstance(v, ast.Attribute) and v.attr == self.attr and (node.attr in self.mem.fields or node.attr in self.mem.methods):
-            new = f"{self.attr}__{node.attr}" if node.attr in self.mem.methods else f"{self.attr}_{node.attr}"
+        a_ = self.mem.alias.get(node.attr, node.attr)
+        if isinstance(v, ast.Attribute) and v.attr == self.attr and (a_ in self.mem.fields or a_ in self.mem.methods):
+            new = f"{self.attr}__{a_}" if a_ in self.mem.methods else f"{self.attr}_{a_}"
             return ast.copy_location(ast.Attribute(value=v.value, attr=new, ctx=node.ctx), node)
         return node
 
@@ -295,9 +435,13 @@ class _LocalRewrite(ast.NodeTransformer):
 
     def visit_Attribute(self, node: ast.Attribute):
         if isinstance(node.value, ast.Name) and node.value.id == self.selfn:
-            if node.attr in self.direct and isinstance(node.ctx, ast.Load):
-                return ast.copy_location(copy.deepcopy(self.direct[node.attr]), node)
-            new = f"{self.var}__{node.attr}" if node.attr in self.mem.methods else f"{self.var}_{node.attr}"
+            attr_ = self.mem.alias.get(node.attr, node.attr)
+            if node.attr in self.mem.getter and isinstance(node.ctx, ast.Load):
+                sub_ = _LocalRewrite("self", self.var, self.mem, self.direct)
+                return ast.copy_location(sub_.visit(copy.deepcopy(self.mem.getter[node.attr])), node)
+            if attr_ in self.direct and isinstance(node.ctx, ast.Load):
+                return ast.copy_location(copy.deepcopy(self.direct[attr_]), node)
+            new = f"{self.var}__{attr_}" if attr_ in self.mem.methods else f"{self.var}_{attr_}"
             return ast.copy_location(ast.Name(id=new, ctx=node.ctx), node)
         return self.generic_visit(node)
 
@@ -317,8 +461,9 @@ class _VarAccess(ast.NodeTransformer):
 
     def visit_Attribute(self, node: ast.Attribute):
         self.generic_visit(node)
-        if isinstance(node.value, ast.Name) and node.value.id == self.var and (node.attr in self.mem.fields or node.attr in self.mem.methods):
-            new = f"{self.var}__{node.attr}" if node.attr in self.mem.methods else f"{self.var}_{node.attr}"
+        a_ = self.mem.alias.get(node.attr, node.attr)
+        if isinstance(node.value, ast.Name) and node.value.id == self.var and (a_ in self.mem.fields or a_ in self.mem.methods):
+            new = f"{self.var}__{a_}" if a_ in self.mem.methods else f"{self.var}_{a_}"
             return ast.copy_location(ast.Name(id=new, ctx=node.ctx), node)
         return node
 
@@ -333,7 +478,7 @@ def flatten_local_instances(tree: ast.Module) -> int:
         progress = False
         classes = {n.name: n for n in tree.body if isinstance(n, ast.ClassDef)}
         for cname, cls in classes.items():
-            if not _is_private(cname) or cls.bases or cls.keywords or cls.decorator_list:
+            if not _is_private(cname) or not class_shape_ok(cls):
                 continue
             mem = _Members(cls)
             if not mem.ok:
@@ -357,7 +502,7 @@ def flatten_local_instances(tree: ast.Module) -> int:
                 continue
             fn, idx, stmt, var = site
             # every other occurrence of `var` in the function is var.<member>; var is bound once
-            members = mem.fields | set(mem.methods) - {"__init__"}
+            members = mem.fields | set(mem.alias) | set(mem.methods) - {"__init__"}
             fine = {id(n.value) for n in ast.walk(fn) if isinstance(n, ast.Attribute) and isinstance(n.value, ast.Name) and n.value.id == var and n.attr in members}
             occ = [n for n in ast.walk(fn) if isinstance(n, ast.Name) and n.id == var]
             tgt = stmt.targets[0] if isinstance(stmt, ast.Assign) else stmt.target
